@@ -287,3 +287,32 @@ def guarded(ctx: Ctx, check_case):
             raise Skip("harness-error")
 
     return w
+
+
+def run_systematic(ctx: Ctx, cases, check_case, keep_one_in=1, label="systematic"):
+    """Deterministic enumeration tier: `cases` is an iterable of JSON cases; this shard takes
+    every nshards-th one, optionally thinned to one in `keep_one_in` by a hash of
+    (VERIF_SEED, index) so that different seeds cover different slices."""
+    n = 0
+    for idx, case in enumerate(cases):
+        if idx % ctx.nshards != ctx.shard:
+            continue
+        if keep_one_in > 1:
+            h = int(hashlib.sha256(f"{ctx.seed}:{label}:{idx}".encode()).hexdigest()[:8], 16)
+            if h % keep_one_in:
+                continue
+        n += 1
+        try:
+            info = check_case(case)
+        except Skip as s:
+            ctx.skipped[str(s) or "skip"] += 1
+            ctx.evaluations += 1
+            continue
+        except Violation as v:
+            ctx.evaluations += 1
+            ctx.fail(v, case)
+            continue
+        if info is not None:
+            info.setdefault("classes", []).append(label)
+        ctx.record(info, case)
+    ctx.extra[label + "_cases"] = ctx.extra.get(label + "_cases", 0) + n
